@@ -22,11 +22,11 @@ Proof. exact unsupported_module_rejected. Qed.
 Print Assumptions C08_unsupported_module_rejected.
 
 (* generators / coroutines *)
-Theorem C08_yield_rejected : forall n comp v, transf n comp (Yield v) = inr ERuntime.
+Theorem C08_yield_rejected : forall n comp inn v, transf n comp inn (Yield v) = inr ERuntime.
 Proof. exact yield_rejected. Qed.
-Theorem C08_yield_from_rejected : forall n comp v, transf n comp (YieldFrom v) = inr ERuntime.
+Theorem C08_yield_from_rejected : forall n comp inn v, transf n comp inn (YieldFrom v) = inr ERuntime.
 Proof. exact yield_from_rejected. Qed.
-Theorem C08_await_rejected : forall n comp v, transf n comp (Await v) = inr ERuntime.
+Theorem C08_await_rejected : forall n comp inn v, transf n comp inn (Await v) = inr ERuntime.
 Proof. exact await_rejected. Qed.
 
 (* placement *)
